@@ -25,10 +25,10 @@ class C15World(E2EWorld):
 
     def build(self):
         st = super().build()
-        st.mon = {"S": {"tx": False, "fin": False, "cancel": False, "aband": False}, "D": {"md": False, "fin": False, "aband": False, "finpdu": None}}
+        st.mon = {w: dict(v) for w, v in self.FRESH.items()}
         return st
 
-    FRESH = {"S": {"tx": False, "fin": False, "cancel": False, "aband": False}, "D": {"md": False, "fin": False, "aband": False, "finpdu": None}}
+    FRESH = {"S": {"tx": False, "fin": False, "cancel": False, "aband": False, "finrx": None}, "D": {"md": False, "fin": False, "aband": False, "finpdu": None}}
 
     def eff(self, st):
         """effective mode / closure of the running transaction (request-level overrides of the second one)"""
@@ -71,6 +71,10 @@ class C15World(E2EWorld):
                         mon["D"]["finpdu"] = [d["cond"], d["deliv"], d["fstat"], d["floc"]]
         if ev[0] == "cancel" and out.get(ev[1], {}).get("ret") is True and ev[1] == "S":
             mon["S"]["cancel"] = True
+        pd = out.get("pdu_d")
+        if ev[0] in ("recv", "dlv") and ev[1] == "S" and pd and pd["T"] == "FIN" and "shell" not in out and not out.get("S", {}).get("exc") \
+                and mon["S"]["finrx"] is None:
+            mon["S"]["finrx"] = [pd["cond"], pd["deliv"], pd["fstat"]]  # the first Finished PDU the sender accepted
         st.mon = mon
         return out
 
@@ -151,6 +155,12 @@ class C15World(E2EWorld):
                 if (r["cond"], r["deliv"], r["fstat"]) != ("NO_ERROR", "DATA_COMPLETE", "FILE_STATUS_UNREPORTED"):
                     bad("C15.sender_finished_params", f"unacknowledged transfer without closure completed nominally but Transaction-Finished carries "
                                                       f"({r['cond']},{r['deliv']},{r['fstat']})")
+            rx = pre.get("finrx")
+            if fins and rx is not None and not (pre["cancel"] or ev[0] == "cancel") and not o.get("faults"):
+                r = fins[0]
+                if [r["cond"], r["deliv"], r["fstat"]] != rx:
+                    bad("C15.sender_finished_params", f"Transaction-Finished ({r['cond']},{r['deliv']},{r['fstat']}) differs from the Finished PDU the sender "
+                                                      f"accepted earlier ({rx[0]},{rx[1]},{rx[2]})")
             if fins and pdu is not None and pdu["T"] == "FIN":
                 r = fins[0]
                 if (r["cond"], r["deliv"], r["fstat"]) != (pdu["cond"], pdu["deliv"], pdu["fstat"]):
